@@ -33,6 +33,12 @@ func Dispatch(env *Env, kind string, payload json.RawMessage) (interface{}, erro
 			return nil, err
 		}
 		return RunC18(env, &j), nil
+	case "c08":
+		var j C08Job
+		if err := json.Unmarshal(payload, &j); err != nil {
+			return nil, err
+		}
+		return RunC08(env, &j), nil
 	case "e3":
 		var j E3Job
 		if err := json.Unmarshal(payload, &j); err != nil {
